@@ -270,6 +270,76 @@ theorem shared_function_id_stale_reference_counterexample (ver : JoblibModel.Mem
     St.empty, compute, afterCall, b1, b2, f1, f2]
   simp [dget, dset, fnPart1, fnPart2]
 
+/-! ### Values handed out and values kept (seeded change seed5-C02-m2)
+
+The model's values have no identity: `Out.value v _` IS the value, and nothing a consumer does to the
+Python object it was handed can reach the model's store — "no two hand-outs alias, and none aliases the
+store" is true by construction here and is NOT what these theorems establish.  What the model does say is
+what every hand-out must EQUAL: dereferencing a reference reads the store and nothing else, leaves it as it
+was, and so answers the same however often and whoever asked before.  That the real objects handed out by
+`__call__` (hit), `call`, `call_and_shelve().get()` and a kept / pickled `MemorizedResult.get()` are
+independent of each other and of anything the cache keeps is established by the CORRESPONDENCE and the
+oracle (harness/memcache.py: histories in which the consumer works in place — append, sort, pop, clear,
+reverse — on every value it is handed, then asks again; signature `handed-out-value-aliased:<path>`). -/
+
+/-- **Dereferencing a reference leaves the cache directory as it was** (`MemorizedResult.get` only reads)
+and what it answers is a function of the entry under the reference's id alone. FULL. -/
+theorem get_reads_only (ver : JoblibModel.MemoryCache.Version) (H : Bs → Bs) (E : Env) (st : St R)
+    (fn : Fn R) (c : Call) :
+    (step ver H E st (.get fn c)).2 = st ∧
+      ∀ k, argsId H E fn.cal fn.ig c = .ok k →
+        (step ver H E st (.get fn c)).1 =
+          (match dget (fn.fid, k) st.entries with | some v => .value v false | none => .keyError) := by
+  constructor
+  · simp only [JoblibModel.MemoryCache.step]
+    split
+    · rfl
+    · split <;> rfl
+  · intro k hk
+    simp only [JoblibModel.MemoryCache.step, hk]
+    cases hd : dget (fn.fid, k) st.entries <;> rfl
+
+/-- **A reference dereferenced `n` times answers the same every time** — the value the store holds under
+its id (or `KeyError` every time) — and leaves the store unchanged: no `get` can depend on an earlier
+`get` (or on what its caller did with the answer). FULL: either version, any store, any `n`. -/
+theorem get_repeatable (ver : JoblibModel.MemoryCache.Version) (H : Bs → Bs) (E : Env) (st : St R)
+    (fn : Fn R) (c : Call) (n : Nat) :
+    run ver H E st (List.replicate n (.get fn c)) = List.replicate n (step ver H E st (.get fn c)).1 ∧
+      exec ver H E st (List.replicate n (.get fn c)) = st := by
+  induction n with
+  | zero => exact ⟨rfl, rfl⟩
+  | succ n ih =>
+    have h := (get_reads_only ver H E st fn c).1
+    simp only [List.replicate_succ, run, exec, h]
+    exact ⟨by rw [ih.1], ih.2⟩
+
+/-- **What a hit hands out is the stored value, and serving it leaves the entries as they were**: a call
+that is served (`executed = false`) returns exactly what `get` on a reference to the same call returns
+from the state it leaves, and a second identical call is served the same value. FULL. -/
+theorem served_value_is_the_stored_one (ver : JoblibModel.MemoryCache.Version) (H : Bs → Bs) (E : Env) (st : St R)
+    (fn : Fn R) (c : Call) (v : R)
+    (hx : (step ver H E st (.call fn c true)).1 = .value v false) :
+    (step ver H E st (.call fn c true)).2 = st ∧ (step ver H E st (.get fn c)).1 = .value v false := by
+  simp only [JoblibModel.MemoryCache.step, cachedCall] at hx ⊢
+  cases hk : argsId H E fn.cal fn.ig c with
+  | error e => simp [hk] at hx
+  | ok k =>
+    simp only [hk] at hx ⊢
+    unfold isInCacheAndValid checkCode at hx ⊢
+    by_cases hc : fn.fid ∈ st.coded
+    · simp only [hc, if_true] at hx ⊢
+      cases hd : dget (fn.fid, k) st.entries with
+      | none =>
+        simp only [hd] at hx
+        unfold compute at hx
+        cases hb : bindOf fn.cal c <;> simp [hb] at hx
+      | some w =>
+        simp only [hd] at hx ⊢
+        simp_all
+    · simp only [hc, if_false] at hx
+      unfold compute at hx
+      cases hb : bindOf fn.cal c <;> simp [hb] at hx
+
 /-! ## Non-vacuity: the hypotheses hold for a non-trivial history
 
 `def f(a, b=5, *args, **kw)` cached with `ignore=['b']` and returning its non-ignored bound arguments
